@@ -298,6 +298,47 @@ def lineage_case(ctx, rng):
     ctx.count("lineage:" + how)
 
 
+def tracked_lineages(ctx):
+    """lineages as a cell tracker produces them: a mother may have lost one of its daughters (one link set, the other
+    None); every link survives pickling and deep copying, in both directions."""
+    from bioscrape.types import Schnitz, ExperimentalLineage
+
+    def cell(t0, n, val):
+        t = np.linspace(t0, t0 + 1.0, n)
+        return Schnitz(t, np.full((n, 2), float(val)), np.linspace(1.0, 2.0, n))
+    for shape in ("both daughters", "first daughter only", "second daughter only"):
+        m, d1, d2, g1, g2 = cell(0, 4, 1), cell(1, 3, 2), cell(1, 3, 3), cell(2, 2, 4), cell(2, 2, 5)
+        if shape == "both daughters":
+            m.py_set_daughters(d1, d2); d1.py_set_parent(m); d2.py_set_parent(m)
+            cells = [m, d1, d2]
+        else:
+            first = shape.startswith("first")
+            m.py_set_daughters(d1 if first else None, None if first else d1); d1.py_set_parent(m)
+            d1.py_set_daughters(g1, g2); g1.py_set_parent(d1); g2.py_set_parent(d1)
+            cells = [m, d1, g1, g2]
+        L = ExperimentalLineage({"X": 0, "Y": 1})
+        for c in cells:
+            L.py_add_schnitz(c)
+
+        def links(Lx):
+            sch = [Lx.py_get_schnitz(i) for i in range(Lx.py_size())]
+            pos = {id(c): i for i, c in enumerate(sch)}
+            return [(pos.get(id(c.py_get_parent()), -1) if c.py_get_parent() is not None else None,
+                     tuple(pos.get(id(d), -1) if d is not None else None for d in c.py_get_daughters()),
+                     np.array(c.py_get_data()).tolist(), np.array(c.py_get_time()).tolist()) for c in sch]
+        want = links(L)
+        for how, C in (("pickle", pickle.loads(pickle.dumps(L))), ("deepcopy", copy.deepcopy(L)), ("pickle of pickle", pickle.loads(pickle.dumps(pickle.loads(pickle.dumps(L)))))):
+            case = {"tracked_lineage": shape, "how": how}
+            ctx.begin_case(case)
+            got = links(C)
+            ctx.evaluated()
+            if got != want:
+                ctx.violation("lineage-pickle/one-daughter" if shape != "both daughters" else "lineage-pickle/links",
+                              "a %s of a tracked lineage (%s) has the links %s, the original %s" % (how, shape, [g[:2] for g in got], [w[:2] for w in want]), case)
+                return
+        ctx.count("tracked_lineage_shapes")
+
+
 TABLES = {}
 
 
@@ -306,6 +347,7 @@ def run(ctx):
     TABLES.update(pickle_tables.build_tables(common.REPO))
     TABLES["__reduce__"] = pickle_tables.build_reduce_tables(common.REPO)
     rng = ctx.rng
+    tracked_lineages(ctx)
     n = 40 if ctx.quick() else 800
     for i in range(n):
         model_case(ctx, rng)
